@@ -183,6 +183,60 @@ def prog_exceptions():
 """ + TAIL, [[Sym("raised")], [Sym("raised")], [Sym("value"), Sym("fine")], [Sym("raised")]]
 
 
+def prog_sleepers(nthreads, k):
+    # contention on a mutex followed by short sleeps, several waiters: a sleeping thread must not receive (and lose) the
+    # wake-up meant for a thread blocked on the mutex
+    return HEAD + """
+(define m (make-mutex)) (define counter 0)
+(define (worker id)
+  (lambda ()
+    (let lp ((i 0))
+      (when (< i %d)
+        (mutex-lock! m)
+        (let ((c counter)) (thread-yield!) (set! counter (+ c 1)))
+        (mutex-unlock! m)
+        (thread-sleep! 0.002)
+        (lp (+ i 1))))
+    id))
+(define ths (let lp ((i 0) (acc '())) (if (< i %d) (lp (+ i 1) (cons (make-thread (worker i)) acc)) (reverse acc))))
+(for-each thread-start! ths)
+(mutex-lock! m) (set! counter (+ counter 100)) (thread-yield!) (mutex-unlock! m)
+(define results (map thread-join! ths))
+(write (list 'counter counter 'results results))
+""" % (k, nthreads) + TAIL, [Sym("counter"), 100 + nthreads * k, Sym("results"), list(range(nthreads))]
+
+
+def prog_sleepy_condvar(rounds):
+    # a thread that has waited on a condition variable and now sleeps must not absorb a signal meant for a current waiter
+    return HEAD + """
+(define m (make-mutex)) (define cv (make-condition-variable))
+(define tokens 0) (define taken 0)
+(define (taker id n)
+  (lambda ()
+    (let lp ((i 0))
+      (when (< i n)
+        (mutex-lock! m)
+        (let wait () (if (= tokens 0) (begin (mutex-unlock! m cv) (mutex-lock! m) (wait))))
+        (set! tokens (- tokens 1)) (set! taken (+ taken 1))
+        (mutex-unlock! m)
+        (thread-sleep! 0.001)
+        (lp (+ i 1))))
+    id))
+(define (giver n)
+  (lambda ()
+    (let lp ((i 0))
+      (when (< i n)
+        (mutex-lock! m) (set! tokens (+ tokens 1)) (condition-variable-signal! cv) (mutex-unlock! m)
+        (thread-yield!)
+        (lp (+ i 1))))
+    'g))
+(define ths (list (make-thread (taker 1 %d)) (make-thread (taker 2 %d)) (make-thread (taker 3 %d)) (make-thread (giver %d))))
+(for-each thread-start! ths)
+(define results (map thread-join! ths))
+(write (list 'taken taken 'tokens tokens 'results results))
+""" % (rounds, rounds, rounds, 3 * rounds) + TAIL, [Sym("taken"), 3 * rounds, Sym("tokens"), 0, Sym("results"), [1, 2, 3, Sym("g")]]
+
+
 def prog_callbacks(n):
     # separately reported family: threads re-entering the VM from C (sort with a Scheme comparator) while others run
     return "(import (scheme base) (scheme write) (scheme process-context) (srfi 18) (srfi 95))\n" + """
@@ -210,6 +264,7 @@ def programs(rng, tier):
         ("buffer-3p1c", prog_buffer(3, 1, 8, 3)),
         ("pingpong", prog_pingpong(15)), ("jointree", prog_jointree(3, 2)), ("timed", prog_timed()),
         ("params", prog_params(4, 6)), ("exceptions", prog_exceptions()),
+        ("sleepers", prog_sleepers(4, 3)), ("sleepy-condvar", prog_sleepy_condvar(4)),
         ("callbacks", prog_callbacks(6)),
     ]
     return ps
